@@ -124,7 +124,21 @@ class ByteInterval(Node):
     address = _IndexedAttribute[typing.Optional[int]]()(
         lambda self: self.section
     )
-    size = _IndexedAttribute[int]()(lambda self: self.section)
+    class _SizeDescriptor(  # type: ignore[type-arg]
+        _IndexedAttribute.Descriptor
+    ):
+        """Shrinking an interval below its initialized size truncates the
+        stored bytes, as ByteInterval::setSize does in the C++ API."""
+
+        def __set__(self, instance: "ByteInterval", value: int) -> None:
+            super().__set__(instance, value)
+            contents = instance.__dict__.get("contents")
+            if contents is not None and len(contents) > value:
+                instance.contents = contents[:value]
+
+    size: int = _SizeDescriptor(  # type: ignore[assignment]
+        lambda self: self.section
+    )
 
     def __init__(
         self,
